@@ -92,6 +92,27 @@ func (s Site) Guards() []Guard {
 	return gs
 }
 
+// CtxGuard is a guard together with the call chain under which its operands
+// are to be read (values of the function the guard lies in).
+type CtxGuard struct {
+	Guard
+	Chain []*ssa.Call
+}
+
+// GuardsCtx is Guards with the chain prefix each guard's values belong to.
+func (s Site) GuardsCtx() []CtxGuard {
+	var out []CtxGuard
+	for _, g := range GuardsOf(s.Instr.Block()) {
+		out = append(out, CtxGuard{g, s.Chain})
+	}
+	for i := len(s.Chain) - 1; i >= 0; i-- {
+		for _, g := range GuardsOf(s.Chain[i].Block()) {
+			out = append(out, CtxGuard{g, s.Chain[:i]})
+		}
+	}
+	return out
+}
+
 // Up translates a value of the site's function towards the root: while it is
 // a parameter of the function entered by the innermost remaining call of the
 // chain it is replaced by that call's argument. Returns the translated value
